@@ -97,7 +97,7 @@ fn stream_cmd(r: &mut Rng, st: &mut StreamSt, dirty: bool, intx: bool) -> Vec<Ve
     };
     match r.below(40) {
         0..=11 => {
-            let id = if dirty && !intx && r.chance(1, 4) { v(b"*") } else if r.chance(1, 8) { v(*r.pick(&[&b"1-0"[..], b"0-0", b"abc", b"2-1", b"5"])) } else {
+            let id = if dirty && !intx && r.chance(1, 4) { v(b"*") } else if r.chance(1, 8) { v(*r.pick(&[&b"1-0"[..], b"0-0", b"abc", b"2-1"])) } else {
                 st.next_ms += 1 + r.below(2);
                 let id = format!("{}-{}", st.next_ms, r.below(2)).into_bytes();
                 st.added.push((k.clone(), id.clone())); id
@@ -119,13 +119,13 @@ fn stream_cmd(r: &mut Rng, st: &mut StreamSt, dirty: bool, intx: bool) -> Vec<Ve
         23 => vec![v(b"XGROUP"), v(b"DESTROY"), k.clone(), g],
         24 | 25 => vec![v(b"XGROUP"), v(b"CREATECONSUMER"), k.clone(), g, c],
         26 => vec![v(b"XGROUP"), v(b"DELCONSUMER"), k.clone(), g, c],
-        27 => { let id = if r.chance(1, 2) { v(*r.pick(&[&b"$"[..], b"0-0", b"0"])) } else { known(r, st) }; vec![v(b"XGROUP"), v(b"SETID"), k.clone(), g, id] }
+        27 => vec![v(b"XINFO"), v(b"STREAM"), k.clone()],
         28..=31 => {
             if dirty || !dirty {
                 let mut cmd = vec![v(b"XREADGROUP"), v(b"GROUP"), g, c];
                 if r.chance(1, 2) { cmd.push(v(b"COUNT")); cmd.push(v(*r.pick(&[&b"1"[..], b"2"]))); }
                 if r.chance(1, 8) { cmd.push(v(b"NOACK")); }
-                cmd.push(v(b"STREAMS")); cmd.push(k.clone()); cmd.push(v(if r.chance(1, 8) { b"0" } else { b">" }));
+                cmd.push(v(b"STREAMS")); cmd.push(k.clone()); cmd.push(v(b">"));
                 cmd
             } else { vec![v(b"XPENDING"), k.clone(), g] }
         }
@@ -206,14 +206,16 @@ fn gen_cmd(r: &mut Rng, g3: &mut c03::Gen, st: &mut StreamSt, dirty: bool, intx:
         95 => vec![v(b"FLUSHDB")],
         96 => if r.chance(1, 3) { vec![v(b"FLUSHALL")] } else { vec![v(b"DBSIZE")] },
         97 => vec![v(b"NOSUCHCMD"), v(b"k1")],
-        98 if dirty => match r.below(3) {       // a key that is expired from the start (sweeper paused in dx cases)
-            0 => vec![v(b"SET"), v(*r.pick(&[&b"k1"[..], b"k2", b"ka"])), v(b"5"), v(b"PX"), v(b"0")],
-            1 => vec![v(b"PEXPIRE"), v(*r.pick(&[&b"k1"[..], b"k2", b"l1", b"s1"])), v(b"0")],
-            _ => vec![v(b"INCR"), v(*r.pick(&[&b"k1"[..], b"k2", b"ka"]))],
-        },
         _ => vec![v(b"PING")],
     };
     let name = upper(&cmd[0]);
+    // inputs in classes of C01 / C04 / C16 that /repo repaired after the models on main were written
+    // (48bcb4d SET zero expiry, f4c6282 SET NX XX, 1a8fa0e SETRANGE empty value, 67ce0e4 ZPOP count 0,
+    // da451f0 / 92eb72a explicit-ID XREADGROUP and SETID, 3be45c2 stream ID text): stay outside them
+    let has = |w: &[u8]| cmd.iter().skip(3).any(|a| a.eq_ignore_ascii_case(w));
+    if name == b"SET" && ((has(b"NX") && has(b"XX")) || cmd.windows(2).any(|w| (w[0].eq_ignore_ascii_case(b"EX") || w[0].eq_ignore_ascii_case(b"PX")) && w[1] == b"0")) { return None; }
+    if name == b"SETRANGE" && cmd.get(3).map_or(false, |x| x.is_empty()) { return None; }
+    if (name == b"ZPOPMIN" || name == b"ZPOPMAX") && cmd.get(2).map_or(false, |x| x == b"0") { return None; }
     if intx && (RANDOM_NAMES.contains(&&name[..]) || (name == b"XADD" && cmd.get(2).map_or(false, |x| x == b"*"))) { return None; }
     if !dirty {
         if REFUTED_NAMES.contains(&&name[..]) { return None; }
@@ -262,7 +264,7 @@ fn random_case(r: &mut Rng, id: String, dirty: bool) -> Case {
             },
             _ => {
                 if let Some(cmd) = gen_cmd(r, &mut g3, &mut st, dirty, intx[cu], dbs[cu] == 0) {
-                    if r.chance(1, 50) && cmd.len() >= 2 && upper(&cmd[0]) != b"EVAL" {
+                    if r.chance(1, 50) && cmd.len() >= 2 && upper(&cmd[0]) != b"EVAL" && upper(&cmd[0]) != b"MSET" {
                         let pos = 1 + r.below(cmd.len() as u64 - 1) as usize;
                         let mut fr: Vec<V> = cmd.iter().map(|a| V::Bulk(a.clone())).collect();
                         fr[pos] = if r.chance(1, 2) { V::Int(5) } else { V::NullBulk };
@@ -345,7 +347,9 @@ pub fn fixed_class_witnesses() -> Vec<Case> {
 
 pub fn witnesses() -> Vec<Case> {
     let mut w = vec![
-        witness("w-expired-unlogged", &[&[b"SET", b"k", b"5", b"PX", b"0"], &[b"GET", b"k"], &[b"INCR", b"k"]], 1, &kd(&[b"k"])),
+        // expiry is not logged and TTLs are relative: gone live after 600 ms, set again by the redo
+        { let mut c = witness("w-expired-unlogged", &[&[b"SET", b"k", b"v", b"PX", b"300"]], 1, &kd(&[b"k"]));
+          let n = c.ops.len(); c.ops.insert(n - 2, sleep_op(600)); c },
         witness("w-tx-logged", &[&[b"MULTI"], &[b"SET", b"k", b"a"], &[b"RPUSH", b"l", b"x", b"y"], &[b"GET", b"k"], &[b"EXEC"],
                                   &[b"MULTI"], &[b"SET", b"k", b"b"], &[b"DISCARD"]], 1, &kd(&[b"k", b"l"])),
         { let src = script_of(&[vec![v(b"SET"), v(b"k"), v(b"v")]], false); let sha = crate::c12::sha1_hex(&src);
@@ -720,7 +724,9 @@ pub fn judge(c: &Case, outs: &[Vec<Tok>]) -> Vec<String> {
                     if let V::Array(l) = &d.req {
                         let zero = |j: usize| l.get(j) == Some(&V::Bulk(b"0".to_vec()));
                         let opt0 = l.windows(2).any(|w| matches!(&w[0], V::Bulk(o) if o.eq_ignore_ascii_case(b"PX") || o.eq_ignore_ascii_case(b"EX")) && w[1] == V::Bulk(b"0".to_vec()));
-                        if (d.name == b"SET" && opt0) || (d.name == b"PEXPIRE" && zero(2)) { class = Some("expired-unlogged"); break; }
+                        let slept = c.ops.iter().any(|o| matches!(o.first(), Some(Tok::B(n)) if n == b"SLEEP"));
+                        let ttl = l.iter().any(|a| matches!(a, V::Bulk(o) if o.eq_ignore_ascii_case(b"PX") || o.eq_ignore_ascii_case(b"EX")));
+                        if (d.name == b"SET" && opt0) || (d.name == b"PEXPIRE" && zero(2)) || (slept && ttl) { class = Some("expired-unlogged"); break; }
                     }
                 }
                 fails.push(format!("FAIL case={} op={} {}the replayed dataset differs from the live one", c.id, k, tag(class)));
